@@ -54,7 +54,21 @@ func TestC04_Schedules(t *testing.T) {
 			}
 			mu.Unlock()
 		}
-		var cl http.Handler = newLimiter(t, gate, int64(limit))
+		// a quarter of the limiters identify the source by the stock client.ip variable: one client
+		// address (IPv4, IPv6, IPv6 with zone) is one source whatever connection (port) it uses
+		byIP := rapid.IntRange(0, 3).Draw(t, "byClientIP") == 0
+		ipOf := map[string]string{"a": "10.1.2.3", "b": "[2001:db8::7]", "c": "[fe80::1%eth0]"}
+		inner := newLimiter(t, gate, int64(limit))
+		if byIP {
+			ex, err := utils.NewExtractor("client.ip")
+			if err != nil {
+				t.Fatalf("NewExtractor: %v", err)
+			}
+			if inner, err = connlimit.New(gate, ex, int64(limit)); err != nil {
+				t.Fatalf("connlimit.New: %v", err)
+			}
+		}
+		var cl http.Handler = inner
 		model := map[string]int{}
 		// a share of cases puts a second, independent limiter (keyed by another header, with its
 		// own limit) in front: a request is admitted iff BOTH have room, and a request the inner
@@ -82,12 +96,15 @@ func TestC04_Schedules(t *testing.T) {
 		}
 		var inflight []fl
 		var log []string
-		rejections, panics, mutations, cancels := 0, 0, 0, 0
+		rejections, panics, mutations, cancels, rewraps := 0, 0, 0, 0, 0
 		used := map[string]bool{}
 		start := func(src string, mustAdmit, mustReject bool) {
 			ctx, cancel := context.WithCancel(context.Background())
 			req := httptest.NewRequest("GET", "http://x/", nil).WithContext(ctx)
 			req.Header.Set("X-Src", src)
+			if byIP {
+				req.RemoteAddr = ipOf[src] + ":" + fmt.Sprint(rapid.IntRange(1024, 65535).Draw(t, "port"))
+			}
 			grp := ""
 			if outerLimit > 0 {
 				grp = rapid.SampledFrom(grps).Draw(t, "grp")
@@ -162,6 +179,13 @@ func TestC04_Schedules(t *testing.T) {
 		}
 		n := rapid.IntRange(1, 40).Draw(t, "nops")
 		for i := 0; i < n; i++ {
+			if rapid.IntRange(0, 11).Draw(t, "rewrap") == 0 {
+				// the chain is rebuilt around the same handler (public Wrap method) while requests
+				// are in flight: they keep their slots
+				inner.Wrap(gate)
+				rewraps++
+				log = append(log, "Wrap(same-handler)")
+			}
 			op := rapid.IntRange(0, 6).Draw(t, "op")
 			if op == 6 && len(inflight) > 0 {
 				// the client of an in-flight request goes away: its context is cancelled, but the
@@ -215,7 +239,13 @@ func TestC04_Schedules(t *testing.T) {
 		if outerLimit > 0 {
 			cl2 = append(cl2, "two-stacked-limiters")
 		}
-		vstat.Case(fmt.Sprintf("%d/%d|%s", limit, outerLimit, strings.Join(log, " ")), nt, cl2, map[string]any{"limit": limit, "schedule": strings.Join(log, " ")})
+		if byIP {
+			cl2 = append(cl2, "source=client.ip")
+		}
+		if rewraps > 0 {
+			cl2 = append(cl2, "Wrap-while-in-flight")
+		}
+		vstat.Case(fmt.Sprintf("%d/%d/%v|%s", limit, outerLimit, byIP, strings.Join(log, " ")), nt, cl2, map[string]any{"limit": limit, "schedule": strings.Join(log, " ")})
 	})
 }
 
